@@ -57,9 +57,6 @@ ASSUMPTIONS = [
 
 SCAL = ["pos_x", "pos_y", "size_x", "temp", "userdef1", "fl1_max"]
 NONSC = ["image", "mask", "contour", "trace"]
-import os as _os
-_SKIP = [x for x in _os.environ.get("C07_SKIP", "").split(",") if x]   # debugging aid only
-NONSC = [f for f in NONSC if f not in _SKIP]
 ALLF = SCAL + NONSC
 CODES = {f: i + 1 for i, f in enumerate(ALLF)}
 TRACES = ["fl1_median", "fl1_raw"]
@@ -71,7 +68,7 @@ ACCESS = ["int", "negint", "slice", "slice_step", "boolmask", "intarray", "full"
 
 def plan(tier):
     if tier == "quick":
-        return {"runs": 420, "budget_s": 48, "run_timeout_s": 180, "det_pairs": 3}
+        return {"runs": 600, "budget_s": 45, "run_timeout_s": 180, "det_pairs": 3}
     return {"runs": 30000, "budget_s": 780, "run_timeout_s": 240, "det_pairs": 3}
 
 
@@ -266,7 +263,7 @@ class World:
         except (StopRun, KeyboardInterrupt, SystemExit):
             raise
         except BaseException as e:
-            if allow_keyerror and isinstance(e, KeyError):
+            if allow_keyerror and (isinstance(e, KeyError) or type(e).__name__ == "BasinNotAvailableError"):
                 return "keyerror", e
             where = "?"
             for fs in reversed(traceback.extract_tb(e.__traceback__)):
@@ -302,6 +299,22 @@ class World:
             return F.rid == T.rid
         return F.rid.startswith(T.rid)
 
+    def targets(self, F, B, must):
+        """files that may legitimately serve basin B of F: the intended target if a stored location points
+        to it; for a referrer without any measurement identifier (nothing to verify against, documented
+        as 'no certainty') also whatever measurement lies at a stored location"""
+        out = []
+        if self.locatable(F, B) and (not must or self.id_ok(F, B)):
+            out.append(B["target"])
+        if F.rid is None and not must:
+            for loc in B["locs"]:
+                p = pathlib.Path(loc)
+                cand = p if p.is_absolute() else F.path.parent / p
+                for X in self.files:
+                    if X.exists and X.path == cand and X not in out:
+                        out.append(X)
+        return out
+
     def cands(self, F, f, must, use_stored=True):
         """candidate identity arrays for feature f of file F.  must=True: only
         through basins that dclab is obliged to resolve."""
@@ -317,12 +330,15 @@ class World:
                 if f in B["internal"]:
                     out.append(B["internal"][f][B["map"]])
                 continue
-            if not self.locatable(F, B):
-                continue
-            if must and not self.id_ok(F, B):
-                continue
-            for c in self.cands(B["target"], f, must):
-                out.append(c[B["map"]] if B["map"] is not None else c)
+            for T in self.targets(F, B, must):
+                for c in self.cands(T, f, must):
+                    if B["map"] is not None:
+                        if len(c) <= int(B["map"].max()):
+                            continue
+                        c = c[B["map"]]
+                    elif len(c) != F.n:
+                        continue
+                    out.append(c)
         uniq = {}
         for c in out:
             uniq.setdefault(c.tobytes(), c)
@@ -337,6 +353,22 @@ class World:
             elif self.locatable(F, B) and self.id_ok(F, B):
                 s |= set(B["feats"]) if B["feats"] is not None else self.offered(B["target"])
         return s
+
+    def mapped_route(self, F, f):
+        """does feature f reach F through at least one mapped (or internal) basin?"""
+        if not F.exists or f in F.stored:
+            return False
+        for B in F.basins:
+            if B["feats"] is not None and f not in B["feats"]:
+                continue
+            if B["internal"] is not None:
+                if f in B["internal"]:
+                    return True
+                continue
+            if self.locatable(F, B) and self.cands(B["target"], f, must=False):
+                if B["map"] is not None or self.mapped_route(B["target"], f):
+                    return True
+        return False
 
     def has_noid(self, F):
         return F.noid or any(B["target"] is not None and self.has_noid(B["target"]) for B in F.basins)
@@ -372,6 +404,11 @@ class World:
             return {"k": "origin", "n": r.choice([5, 7, 9, 12, 17, 23, 31, 44, 60]), "feats": feats, "dir": r.randrange(NDIRS),
                     "noid": r.random() < 0.03}
         i = r.choice(us)
+        if x < 0.55 and r.random() < 0.35:
+            # favour long chains: derive from the deepest file that may still be a source
+            deep = [j for j in us if self.files[j].depth <= 3]
+            if deep:
+                i = max(deep, key=lambda j: (self.files[j].depth, j))
         if x < 0.30:
             return {"k": "export", "src": i, "depth": r.choice([0, 0, 0, 1, 1, 2]), "mseed": r.randrange(1 << 30),
                     "filtered": r.random() < 0.8, "feats": r.choice(["none", "none", "some", "some", "all"]),
@@ -452,9 +489,14 @@ class World:
                     m = rs.random(len(idx)) < op["p"]
                     if not m.any():
                         m[int(rs.integers(0, len(idx)))] = True
-                    cur.filter.manual[:] = m
-                    cur.apply_filter()
-                    child = dclab.new_dataset(cur)
+                    try:
+                        cur.filter.manual[:] = m
+                        cur.apply_filter()
+                        child = dclab.new_dataset(cur)
+                    except Exception as e:
+                        # building the hierarchy is C04's business; only the export itself is judged here
+                        state["child_failed"] = type(e).__name__
+                        return
                     chain.append(child)
                     applied = np.array(cur.filter.all, dtype=bool)
                     idx = idx[applied]
@@ -502,9 +544,13 @@ class World:
                         pass
 
         ctx.state_ops += 1
-        status, _ = self.guarded("C07.export.exception", facts, produce)
+        status, _ = self.guarded("C07.export_child.exception" if depth else "C07.export.exception", facts, produce)
         if state.get("empty"):
             ctx.log("w", f"export of {S.name} skipped (empty selection)")
+            return
+        if state.get("child_failed"):
+            ctx.count("skipped_producer_child")
+            ctx.log("w", f"child of {S.name} failed: {state['child_failed']}")
             return
         sel = state.get("sel")
         ctx.log("w", f"export {S.name}->{P.name} depth={depth} filtered={filtered} feats={feats} box={state.get('box')}", state.get("masks"))
@@ -568,7 +614,7 @@ class World:
             k = int(rs.integers(1, n_t + 1))
             return np.sort(rs.choice(n_t, size=k, replace=False)).astype(np.uint64)
         if kind == "superset":
-            k = int(rs.integers(n_t + 1, min(MAX_EVENTS, 2 * n_t + 3) + 1))
+            k = int(rs.integers(n_t + 1, max(n_t + 2, min(MAX_EVENTS, 2 * n_t + 3) + 1)))
             m = rs.integers(0, n_t, size=k)
             if rs.random() < 0.5:
                 m = np.sort(m)
@@ -854,8 +900,9 @@ class World:
             return None
         return ds
 
-    def read_full(self, ds, f, n):
-        obj = ds[f]
+    def read_full(self, ds, f, n, obj=None):
+        if obj is None:
+            obj = ds[f]
         if f == "contour":
             ln = len(obj)
             return ln, [np.asarray(obj[i]) for i in range(n)]
@@ -882,7 +929,15 @@ class World:
         return s
 
     def contour_recomputable(self, F):
-        """dclab recomputes 'contour' from 'mask' when no basin it is obliged to resolve delivers it"""
+        """dclab computes 'contour' from 'mask' where no basin delivers it (here or inside a basin's target):
+        such a contour is legitimate data that the model does not describe"""
+        if not F.exists or "contour" in F.stored:
+            return False
+        for B in F.basins:
+            if B["internal"] is not None or (B["feats"] is not None and "contour" not in B["feats"]):
+                continue
+            if self.locatable(F, B) and self.contour_recomputable(B["target"]):
+                return True
         return not self.cands(F, "contour", must=True) and bool(self.cands(F, "mask", must=False))
 
     def check_file(self, F, why=None):
@@ -906,7 +961,7 @@ class World:
             for f in ALLF:
                 may = self.cands(F, f, must=False)
                 must = self.cands(F, f, must=True)
-                mapped_route = f not in F.stored and any(B["map"] is not None for B in F.basins)
+                mapped_route = self.mapped_route(F, f)
                 sig = self.sig_for(F, why, f)
                 if f == "contour" and self.contour_recomputable(F):
                     continue
@@ -944,7 +999,9 @@ class World:
                     ctx.probe("abs_location_still_resolves")
                 if mapped_route and f in NONSC:
                     ctx.probe("nonscalar_through_mapped")
-                summary.append(f + ":" + seeds.short_hash(got)[:6])
+                # (which of several equally ranked basins dclab asks first depends on the hash of the basin
+                # definition, which contains the scratch path: only unambiguous data enter the digest)
+                summary.append(f + ":" + (seeds.short_hash(got)[:6] if len(may) == 1 else "amb"))
                 if ln != F.n:
                     self.report("C07.len", f"{F.name}: len(ds['{f}'])={ln} but the file holds {F.n} events", dict(sig, what="feature"))
                     bad = True
@@ -963,6 +1020,8 @@ class World:
                                 f"{F.name} (n={F.n}, depth {F.depth}): feature {f} differs from the origin data at the mapped events: "
                                 f"delivered identities (provider, event) {decode(f, got)}, expected {[tuple(int(v) for v in x) for x in exp[:6]]}"
                                 f"; shape {np.shape(got) if f not in ('contour', 'trace') else '-'}", sig)
+            if not bad:
+                bad = self.check_basins(F, ds, why)
         finally:
             try:
                 ds.close()
@@ -971,6 +1030,55 @@ class World:
         if bad:
             F.tainted = True
         ctx.log("o", f"check {F.name} why={why} fs={F.fs} {'BAD' if bad else 'ok'}", " ".join(summary))
+
+    def check_basins(self, F, ds, why):
+        """every basin of the file, asked directly, must deliver the origin's data at the mapped events
+        (also for features that the file stores itself and that therefore never reach the reader)"""
+        ctx = self.ctx
+        st, basins = self.guarded("C07.open", self.sig_for(F, why, what="basins"), lambda: list(ds.basins))
+        if st != "ok":
+            return True
+        skip_contour = any(self.contour_recomputable(X) for X in self.closure(F))
+        bad = False
+        for bn in basins:
+            st, feats = self.guarded("C07.open", self.sig_for(F, why, what="basin_features"), lambda bn=bn: list(bn.features or []))
+            if st != "ok":
+                return True
+            for f in ALLF:
+                if f not in feats or (f == "contour" and skip_contour):
+                    continue
+                exp = self.cands(F, f, must=False, use_stored=False)
+
+                def fetch(bn=bn, f=f):
+                    return self.read_full(None, f, F.n, obj=bn.get_feature_data(f))
+
+                rsig = {"feat": fkind(f), "acc": "full", "mapped": True}
+                if self.has_noid(F):
+                    rsig["noid"] = True
+                st, res = self.guarded("C07.read.exception." + fkind(f), rsig, fetch, allow_keyerror=True)
+                if st != "ok":
+                    continue
+                ctx.checked()
+                ln, got = res
+                sig = self.sig_for(F, why, f, via="basin")
+                if not exp:
+                    self.report("C07.other_data", f"{F.name}: a basin delivers feature {f} although none of the file's basin targets is "
+                                                  f"reachable (last file-system event {F.fs}): identities {decode(f, got)}", dict(sig, fs=F.fs))
+                    bad = True
+                    continue
+                if ln != F.n:
+                    self.report("C07.len", f"{F.name}: feature {f} asked from one of the file's basins has length {ln}, the file holds {F.n} events",
+                                dict(sig, what="feature"))
+                    bad = True
+                    continue
+                if not any(equal(f, got, values(f, c)) for c in exp):
+                    self.report("C07.value." + why,
+                                f"{F.name} (n={F.n}, depth {F.depth}): feature {f} asked from one of the file's basins "
+                                f"({'hidden behind a stored feature' if f in F.stored else 'not stored in the file'}) differs from the origin "
+                                f"data at the mapped events: delivered identities (provider, event) {decode(f, got)}, expected "
+                                f"{[tuple(int(v) for v in x) for x in exp[0][:6]]}", sig)
+                    bad = True
+        return bad
 
     # ---- read with an access pattern
     def do_read(self, op):
@@ -986,7 +1094,7 @@ class World:
         must = self.cands(F, f, must=True)
         if f == "contour" and self.contour_recomputable(F):
             return
-        mapped_route = f not in F.stored and any(B["map"] is not None for B in F.basins)
+        mapped_route = self.mapped_route(F, f)
         sig = {"feat": fkind(f), "acc": acc, "mapped": bool(mapped_route)}
         if self.has_noid(F):
             sig["noid"] = True
@@ -1086,7 +1194,7 @@ class World:
                 if good:
                     ok = True
                     break
-            ctx.log("r", f"read {F.name} {f} {acc}", seeds.short_hash([got[k] for k in sorted(got)]))
+            ctx.log("r", f"read {F.name} {f} {acc}", seeds.short_hash([got[k] for k in sorted(got)]) if len(may) == 1 else "amb")
             if not ok:
                 g0 = got[sorted(got)[0]]
                 self.report("C07.access", f"{F.name} (n={n}): ds['{f}'] accessed with {acc} ({_fmt_index(index)}) differs from the origin data "
